@@ -304,11 +304,12 @@ func newTestEngine() *aquahash.Aquahash {
 
 func engines() (*aquahash.Aquahash, *aquahash.Aquahash) {
 	engOnce.Do(func() {
-		d, err := os.MkdirTemp("", "c14dag")
-		if err != nil {
+		// one shared directory (the engine's on-disk DAG store tolerates several
+		// processes); the driver points TMPDIR into the shard's run directory
+		dagDir = os.TempDir() + "/c14dag"
+		if err := os.MkdirAll(dagDir, 0o755); err != nil {
 			panic(err)
 		}
-		dagDir = d
 		engTest = newTestEngine()
 		// what aqua/backend.go builds for chains whose genesis version is > 1
 		engNoDag = aquahash.New(&aquahash.Config{StartVersion: 2})
